@@ -2,7 +2,7 @@ import json, shutil, vlib
 from props import gocommon
 
 THEOREMS = ["Folang.Props.C03." + t for t in """record_shape union_interface union_case_struct ctor_is_func ctor_is_var
-ctor_ref_matches_decl qualified_name call_full call_partial call_partial_arity call_too_many root_func_shape
+ctor_ref_matches_decl qualified_name call_full call_partial call_partial_arity call_too_many call_carries_type_args call_no_type_args root_func_shape
 unit_result_is_no_result""".split()]
 
 ASSUMPTIONS = [
@@ -25,7 +25,7 @@ def run(ctx):
     ctx.stream("c03", [fcdrv], env=gocommon.fc_env("c03", "%d %d %s" % (ctx.seed, n, wd)), timeout=20000)
     ctx.evaluations += n
     shutil.rmtree(wd, ignore_errors=True)
-    ctx.finish(rule="per case: 1-2 records (1-4 fields; generic or not; field types int/string/bool/[]int/[]string/int*string/earlier records/T), 1-2 unions (1-4 cases with/without payload; generic or not), top-level var and funcs with unit parameter/result, 15 package_info call forms; compiled with a generated Go client + implementations and run; distinct = distinct union declarations checked against the model (programs are counted in evaluations)")
+    ctx.finish(rule="per case: 1-2 records (1-4 fields; generic or not; field types int/string/bool/[]int/[]string/int*string/earlier records/T), 1-2 unions (1-4 cases with/without payload; generic or not), top-level var and funcs with unit parameter/result, 23 package_info call forms (incl. explicitly instantiated generic functions whose type parameter occurs only in the result, full / partial / piped, type arguments drawn per program); compiled with a generated Go client + implementations and run; distinct = distinct union declarations checked against the model (programs are counted in evaluations)")
 
 
 def replay(ctx, path):
